@@ -242,6 +242,8 @@ RecvHs(s, r, c, ch) ==
         \* (a DTLS server answers every cookie-less hello statelessly, any number of times)
         IF s.retried /\ ~s.cfg.dtls THEN Fatal(s, <<m>>)
         ELSE Result([s EXCEPT !.retried = TRUE,
+                              \* what the first hello said about early data stays known (skipping, see AllowedChoicesBase)
+                              !.cfg = [s.cfg EXCEPT !.eskip = c.eskip, !.med = c.med],
                               !.recvSeq = IF s.retried THEN s.recvSeq ELSE Append(s.recvSeq, m),
                               \* RFC 6347 4.2.1: the cookie-less ClientHello and the HelloVerifyRequest are not part of
                               \* the transcript - a modified first hello does not spoil the DTLS handshake; a TLS 1.3
@@ -324,6 +326,10 @@ Dispatch(s, r, c, ch, v) ==
 Pending(s, rpass) ==
     [Result([s EXCEPT !.desync = TRUE, !.tampered = s.tampered \/ ~s.done], <<>>, <<>>, 0, FALSE, rpass) EXCEPT !.loose = TRUE]
 
+\* a TLS 1.3 server between its HelloRetryRequest and the second ClientHello, whose first ClientHello offered early data:
+\* it has no read keys and drops what arrives as application_data records, within the configured amount (RFC 8446 4.2.10)
+HrrEarlyWindow(s, r) == s.cfg.eskip /\ s.role = "S" /\ s.retried /\ ~s.helloDone /\ ~s.cfg.dtls /\ r.otype = 23 /\ s.skipped + r.len <= s.cfg.med
+
 \* which choices make sense for this record in this state
 AllowedChoicesBase(s, r) ==
     LET v == Verdict(s, r) IN
@@ -339,8 +345,11 @@ AllowedChoicesBase(s, r) ==
     \* a well-formed genuine handshake message can still be refused on its merits (empty or untrusted
     \* certificate, unacceptable parameters): "bad" stays possible for handshake messages
     ELSE IF v = "ok" THEN (IF r.gen /\ r.it # "hs" THEN {"good"} ELSE {"good", "bad"})
-    ELSE IF v = "garbage" THEN {"rlfail", "part", "bad"}
-    ELSE IF r.free THEN Choices
+    \* ... and a TLS 1.3 server that answered a ClientHello offering early data with HelloRetryRequest skips the early data
+    \* already on its way (application_data records arriving before the second ClientHello, while it has no read keys)
+    ELSE IF v = "garbage" THEN {"rlfail", "part", "bad"} \cup (IF HrrEarlyWindow(s, r) THEN {"skip"} ELSE {})
+    \* (a record of the attacker's own making that looks like application data falls under the same skipping)
+    ELSE IF r.free THEN Choices \cup (IF HrrEarlyWindow(s, r) THEN {"skip"} ELSE {})
     ELSE IF r.it = "hs" THEN {"good", "bad"}
     ELSE {"good"}
 
@@ -370,9 +379,12 @@ RecvBase(s, r, c, ch) ==
            ELSE Result(Kill(s, "fatalsent"), <<>>, <<>>, 0, TRUE, FALSE)
       [] v = "garbage" ->
            IF ch = "part" THEN Pending(s, FALSE)
+           \* early data behind a HelloRetryRequest: no keys yet, the record is taken as it comes (passes the record layer) and dropped
+           ELSE IF ch = "skip" THEN Result([s EXCEPT !.skipped = s.skipped + r.len], <<>>, <<>>, 0, FALSE, TRUE)
            ELSE Result(Kill(s, "fatalsent"), <<>>, <<>>, 0, TRUE, ch = "bad")
       [] v = "plain" /\ r.free /\ ch = "rlfail" -> Result(Kill(s, "fatalsent"), <<>>, <<>>, 0, TRUE, FALSE)
       [] v = "plain" /\ r.free /\ ch = "part" -> Pending(s, FALSE)
+      [] v = "plain" /\ r.free /\ ch = "skip" -> Result([s EXCEPT !.skipped = s.skipped + r.len], <<>>, <<>>, 0, FALSE, TRUE)
       [] OTHER -> Dispatch(s, r, c, ch, v)
 
 Recv(s, r, c, ch) ==
